@@ -1805,3 +1805,67 @@ def rule_converters_use_object_model(ctx, rep, rid: str) -> None:
                 rep.bad(rid, key, f"{f.qual} builds the script value with {short(c, 50)}, and {g.qual} is the built-in `{natives[id(g)][1]}` that scripts call: it interprets its arguments as a script call does (a single numeric argument of Array is a length), so some host values convert to something else ([3] becomes an array of three undefined)", f"{f.module.rel}:{c.lineno}")
     if n == 0:
         raise AnalysisError(f"{rid}: no list/dict branch of a host-to-script converter found")
+
+
+# ---- an arrow function has no this of its own ----------------------------------------------------------------------
+def rule_arrow_this_is_lexical(ctx, rep, rid: str) -> None:
+    """`this` inside an arrow function is the `this` of the code the arrow is written in.  With one THIS opcode that
+    reads the frame's this_value, that takes three links: the compiler marks the code objects of arrow functions, the
+    closure-creating handler remembers the creating frame's this_value on functions so marked, and the single place
+    that builds call frames puts the remembered value into the frame, after bound functions were unwrapped and whatever
+    the call form passed.  (A compiler that never emits THIS inside an arrow body needs none of this.)"""
+    rep.rule(rid, "an arrow function runs with the this of its creation: either the compiler never emits the THIS opcode for an arrow body, or (a) only the arrow-function compiler marks a code object as arrow, (b) the handler that creates closures stores the creating frame's this_value on the function under that mark, and (c) the function that builds call frames replaces the caller's this by the stored one before the frame is made", floor=1)
+    comp = ctx.tree.class_named("Compiler")
+    df, chain = ctx.facts.vm_dispatcher()
+    # (a) the mark
+    marks = []
+    for m in comp.methods.values():
+        if isinstance(m.node, ast.Lambda):
+            continue
+        for c in m.own_nodes():
+            if isinstance(c, ast.Call) and call_name(c) == "CompiledFunction":
+                for kw in c.keywords:
+                    if kw.arg and "arrow" in kw.arg and isinstance(kw.value, ast.Constant) and kw.value.value is True:
+                        marks.append((m, kw.arg))
+    if not marks:
+        rep.bad(rid, "arrow:marked", "no code object is marked as an arrow function (CompiledFunction(.., <arrow flag>=True)): the interpreter cannot tell an arrow from an ordinary function, so `this` inside an arrow is that of its own call", comp.node and f"{comp.module.rel}:{comp.node.lineno}")
+        return
+    flag = marks[0][1]
+    wrong = [m for m, _ in marks if "arrow" not in m.name]
+    if wrong:
+        rep.bad(rid, "arrow:marked", f"{wrong[0].qual} marks its code object as an arrow function although it does not compile arrow functions", wrong[0].loc)
+    else:
+        rep.ok(rid, "arrow:marked", {"by": sorted({m.name for m, _ in marks}), "flag": flag})
+    # (b) the capture
+    body = chain.body_of("MAKE_CLOSURE")
+    if body is None:
+        raise AnalysisError(f"{rid}: no MAKE_CLOSURE handler")
+    cap = None
+    for st in body:
+        for a in ast.walk(st):
+            if isinstance(a, ast.Assign) and len(a.targets) == 1 and isinstance(a.targets[0], ast.Attribute) and norm(a.value) == "frame.this_value":
+                if any(pol and flag in norm(t) for t, pol in guards_of(a, df.node)):
+                    cap = a
+    if cap is None:
+        rep.bad(rid, "arrow:this-captured", f"the MAKE_CLOSURE handler does not store frame.this_value on functions whose code is marked `{flag}`: nothing remembers the this an arrow function was created under", f"{df.module.rel}:{body[0].lineno}")
+        return
+    attr = cap.targets[0].attr
+    rep.ok(rid, "arrow:this-captured", {"attribute": attr})
+    # (c) the use: the function that constructs call frames for script functions
+    builders = [f for f in ctx.tree.funcs if f.cls is df.cls and not isinstance(f.node, ast.Lambda) and any(isinstance(c, ast.Call) and call_name(c) == "CallFrame" and any(kw.arg == "this_value" and isinstance(kw.value, ast.Name) and kw.value.id in f.params() for kw in c.keywords) for c in f.own_nodes())]
+    if not builders:
+        raise AnalysisError(f"{rid}: no function builds call frames with a this_value taken from a local")
+    for f in builders:
+        key = f"{f.qual}:arrow-this-used"
+        fr = next(c for c in f.own_nodes() if isinstance(c, ast.Call) and call_name(c) == "CallFrame" and any(kw.arg == "this_value" and isinstance(kw.value, ast.Name) and kw.value.id in f.params() for kw in c.keywords))
+        tv = next(kw.value.id for kw in fr.keywords if kw.arg == "this_value")
+        sets = [a for a in f.own_nodes() if isinstance(a, ast.Assign) and any(isinstance(t, ast.Name) and t.id == tv for t in a.targets) and isinstance(a.value, ast.Attribute) and a.value.attr == attr and a.lineno < fr.lineno]
+        if not sets:
+            rep.bad(rid, key, f"{f.qual} builds the call frame with this_value={tv} and never replaces it by the function's `{attr}`: an arrow function runs with the this of its own call (undefined for a plain call, the array for a callback, whatever call/apply pass) instead of the this it was created under", f"{f.module.rel}:{fr.lineno}")
+            continue
+        # after the bound-function unwrapping, so that it is the arrow's own attribute that is read
+        unwrap = [a for a in f.own_nodes() if isinstance(a, ast.Assign) and any(isinstance(t, ast.Name) and t.id == norm(sets[0].value.value) for t in a.targets) and "_original" in norm(a.value)]
+        if unwrap and sets[0].lineno < max(u.lineno for u in unwrap):
+            rep.bad(rid, key, f"{f.qual} reads `{attr}` before it unwraps a bound function: for a bound arrow function the attribute of the wrapper is read, which has none", f"{f.module.rel}:{sets[0].lineno}")
+        else:
+            rep.ok(rid, key, {"this_value": tv, "from": attr})
